@@ -159,6 +159,40 @@ def check(P: Project, R: Report) -> None:
     # ------------------------------------------------------------------ R3
     kind_table(P, R)
 
+    # ------------------------------------------------------------------ R5
+    R.rule("R5", "envelope classes that override model_dump/model_dump_json only filter absent top-level members: the payload values (params, result, error.data) are never rewritten")
+    n_over = 0
+    for cname in list(ENVELOPE_CLASSES) + ["JSONRPCMessage"]:
+        mi = T.models.get(f"{A.MOD_JSONRPC}:{cname}")
+        if mi is None:
+            continue
+        for mname in ("model_dump", "model_dump_json", "dict", "json"):
+            f = mi.methods.get(mname)
+            if f is None:
+                continue
+            n_over += 1
+            R.fn(f.fq)
+            bad = []
+            for n in walk_local(f.node):
+                if isinstance(n, ast.Call):
+                    cn = call_name(n)
+                    if cn == "super" or cn.startswith("super().") or cn in ("kwargs.get", "isinstance", "json.dumps") or cn.endswith((".items", ".get")):
+                        continue
+                    bad.append(f"line {n.lineno}: call `{cn}(…)`")
+                if isinstance(n, (ast.DictComp, ast.ListComp)):
+                    # a single-level filter `{k: v for k, v in result.items() if v is not None}` is fine
+                    ok = isinstance(n, ast.DictComp) and len(n.generators) == 1 and isinstance(n.value, ast.Name) and isinstance(n.key, ast.Name)
+                    if not ok:
+                        bad.append(f"line {n.lineno}: `{ast.unparse(n)[:50]}` transforms values")
+                if isinstance(n, (ast.Assign, ast.Delete)):
+                    tg = n.targets if isinstance(n, ast.Assign) else n.targets
+                    for t in tg:
+                        if isinstance(t, ast.Subscript) and not ast.unparse(t).startswith("kwargs["):
+                            bad.append(f"line {n.lineno}: `{ast.unparse(t)[:40]}` is assigned/deleted")
+            R.ob("R5", f"{cname}.{mname} leaves payload values alone", not bad, f.where,
+                 "the override post-processes the dumped payload: " + "; ".join(bad) + " — explicit nulls (or other values) nested inside params/result would not survive emission", sample=f"R5 {cname}.{mname}: top-level filter only")
+    R.ob("R5", "envelope dump overrides were examined", True, jm.rel, f"{n_over} overrides")
+
     # ------------------------------------------------------------------ R4
     ser_sites = 0
     for modname, fname_hint in ((A.MOD_STDIO, None), (A.MOD_HTTP, None), (A.MOD_SSE, None)):
